@@ -12,7 +12,7 @@ TRUST = ("go/packages + go/types + go/ssa + go/cfg (x/tools v0.29.0); the fpchec
 # id -> (technique, level text, design section, not-decided note)
 CHECKS = {
  "C01": ("reference-graph SCC (branch-free cycle) + parameter relevance over the monad packages (AST, go/types)",
-         "Structural necessary conditions, decided for every function of the four generated monad packages: the definitional reference graph has no branch-free cycle (a circular definition diverges on all-success inputs), every parameter of every combinator is used, and StateT bodies never reuse a state that was fed to a run (right identity of StateT); a unit function (Pure/Some/Success/Right/Done) never converts its type-parameter argument to an interface, so it cannot treat nil payloads differently (SSA value flow through moves, closures and static calls). A violation names the cycle / the parameter / the conversion.",
+         "Structural necessary conditions, decided for every function of the four generated monad packages: the definitional reference graph has no branch-free cycle (a circular definition diverges on all-success inputs), every parameter of every combinator is used, and StateT bodies never reuse a state that was fed to a run (right identity of StateT); a unit function (Pure/Some/Success/Right/Done) never converts its type-parameter argument to an interface, so it cannot treat nil payloads differently (SSA value flow through moves, closures and static calls); every function of a generated monad file uses the same callees as its namesakes in the other monad packages (the derived combinators are copies of one template; 355 compared). A violation names the cycle / the parameter / the conversion / the deviating copy.",
          "§4 C01", "the three laws as value equalities; Seq/List/Iterator/Eval/fn0/fn1 instances"),
  "C02": ("structured success-test analysis (continuation/handler classification by type), supplier-deferral rule, recover-handler rule (AST, go/types)",
          "Call-placement clauses decided for every success test of a Try/Option/Either operand in the root package, the monad packages and the folds: no continuation and no iterator pull on the failure side, no handler on the success side, continuations receive a value extracted from the tested operand, a fold stops at the first failed step, short-circuiting functions return the operand itself or a failure built from it alone, recover-style functions return successes untouched; supplier parameters are only invoked inside deferred literals or under a test; the five panic-capturing functions register a recover handler first, which produces a failure carrying the recovered value only when it is non-nil and never type-asserts that value (here or in a helper it is passed to); effect-order summaries (R-EFFORDER): every branch-free or test-guarded combinator consults its monadic operands in declaration order, and the methods of one builder type agree on the order of the receiver's fields and consult them before their arguments; in a fold over a cursor every path from a monadic step result to the next consultation of the cursor passes a test of that result (R-FOLDSTOP).",
